@@ -185,13 +185,37 @@ structure Scratch (K : Type) where
   u : Vec K
   t : Vec K
 
+/-- `n`-fold application (`for(i = 0; i < n; ++i) a = f(a)`) -/
+def iter {α : Type} (f : α → α) : Nat → α → α
+  | 0, a => a
+  | n + 1, a => iter f n (f a)
+
 /-- `n` sweeps; the level's `t` is threaded through -/
 def sweeps (sw : Vec K → Vec K → Vec K → Vec K × Vec K) (n : Nat) (rhs x t : Vec K) : Vec K × Vec K :=
-  (List.range n).foldl (fun (xt : Vec K × Vec K) _ => sw rhs xt.1 xt.2) (x, t)
+  iter (fun (xt : Vec K × Vec K) => sw rhs xt.1 xt.2) n (x, t)
+
+/-- state of the `ncycle` loop on an inner level: `x`, this level's scratch, the next level's scratch, the rest -/
+abbrev CycSt (K : Type) := Vec K × Scratch K × Scratch K × List (Scratch K)
+
+/-- one pass of the `for j < ncycle` loop body on an inner level (amg.hpp:533-550); `rc` is the recursive call
+`cycle(nxt, *nxt->f, *nxt->u)` as a function of (scratch of the coarser levels, rhs, x). -/
+def cycleBody (prm : Params) (sm : Relax.Smoother K S) (s : S) (A P R : CRS K) (nextRows : Nat)
+    (rc : List (Scratch K) → Vec K → Vec K → Vec K × List (Scratch K))
+    (rhs : Vec K) (st : CycSt K) : CycSt K :=
+  let r1 := sweeps (sm.applyPre s A) prm.npre rhs st.1 st.2.1.t
+  let t := residual rhs A r1.1                              -- backend::residual(rhs, A, x, t)
+  let fn := spmv 1 R t 0 st.2.2.1.f                         -- nxt->f = R * t
+  let un := vclear nextRows                                 -- clear(*nxt->u); `u` has `m_rows` entries
+  let rc' := rc ({ st.2.2.1 with f := fn, u := un } :: st.2.2.2) fn un
+  let x2 := spmv 1 P rc'.1 1 r1.1                           -- x += P * nxt->u
+  let r2 := sweeps (sm.applyPost s A) prm.npost rhs x2 t
+  match rc'.2 with
+  | scn' :: scr' => (r2.1, { st.2.1 with t := r2.2 }, { scn' with u := rc'.1 }, scr')
+  | [] => (r2.1, { st.2.1 with t := r2.2 }, st.2.2.1, st.2.2.2)     -- cannot happen: `rc` returns its scratch list
 
 /-- `amg::cycle(lvl, rhs, x)` (amg.hpp:515-553); `scr` has one entry per level of `levels`.
-Levels without the pieces the code dereferences (`A`, `relax`, `P`, `R`) cannot occur in a built hierarchy; the
-model returns `x` unchanged there and `build_levels_shape` (Properties/C03) shows the case is unreachable. -/
+Levels without the pieces the code dereferences (`A`, `relax`, `P`, `R`) cannot occur in a built hierarchy
+(`Amg.Chain`); the model returns `x` unchanged there. -/
 def cycle (prm : Params) (sm : Relax.Smoother K S) (direct : CRS K → Vec K → Vec K) :
     List (Level K S) → List (Scratch K) → Vec K → Vec K → Vec K × List (Scratch K)
   | [], scr, _, x => (x, scr)
@@ -208,20 +232,9 @@ def cycle (prm : Params) (sm : Relax.Smoother K S) (direct : CRS K → Vec K →
   | lv :: nxt :: rest, sc :: scn :: scr, rhs, x =>
     match lv.A, lv.relax, lv.P, lv.R with
     | some A, some s, some P, some R =>
-      (List.range prm.ncycle).foldl (fun (st : Vec K × List (Scratch K)) _ =>
-        match st.2 with
-        | sc :: scn :: scr =>
-          let r1 := sweeps (sm.applyPre s A) prm.npre rhs st.1 sc.t
-          let t := residual rhs A r1.1
-          let fn := spmv 1 R t 0 scn.f
-          let un := vclear scn.u.size
-          let rc := cycle prm sm direct (nxt :: rest) ({ scn with f := fn, u := un } :: scr) fn un
-          let x2 := spmv 1 P rc.1 1 r1.1
-          let r2 := sweeps (sm.applyPost s A) prm.npost rhs x2 t
-          match rc.2 with
-          | scn' :: scr' => (r2.1, { sc with t := r2.2 } :: { scn' with u := rc.1 } :: scr')
-          | [] => (r2.1, [{ sc with t := r2.2 }])
-        | other => (st.1, other)) (x, sc :: scn :: scr)
+      let st := iter (cycleBody prm sm s A P R nxt.rows (cycle prm sm direct (nxt :: rest)) rhs)
+        prm.ncycle (x, sc, scn, scr)
+      (st.1, st.2.1 :: st.2.2.1 :: st.2.2.2)
     | _, _, _, _ => (x, sc :: scn :: scr)
   | _, scr, _, x => (x, scr)
 
@@ -230,8 +243,8 @@ def apply (prm : Params) (sm : Relax.Smoother K S) (direct : CRS K → Vec K →
     (levels : List (Level K S)) (scr : List (Scratch K)) (rhs : Vec K) : Vec K × List (Scratch K) :=
   if prm.pre_cycles = 0 then (vcopy rhs, scr)
   else
-    (List.range prm.pre_cycles).foldl (fun (st : Vec K × List (Scratch K)) _ =>
-      cycle prm sm direct levels st.2 rhs st.1) (vclear rhs.size, scr)
+    iter (fun (st : Vec K × List (Scratch K)) => cycle prm sm direct levels st.2 rhs st.1) prm.pre_cycles
+      (vclear rhs.size, scr)
 
 /-- fresh scratch as allocated by the constructor (`create_vector` zero-initialises) -/
 def freshScratch (levels : List (Level K S)) : List (Scratch K) :=
